@@ -52,17 +52,22 @@ def floors(tier):
             'faults_injected': 20000, 'histkeys:fault': 9, 'legacy_api_errors': 3000,
             'custom_context_soups': 500, 'parser_class_context_soups': 1000, 'parses_from_configured_state': 2000,
             'stop_condition_entry_points': 3000, 'truncated_documents_parsed_before_injection': 500,
-            'failed_parse_inside_verbatim_then_stray_brace': 40}
+            'failed_parse_inside_verbatim_then_stray_brace': 40, 'histkeys:numbering': 2, 'hist:numbering:line_number_offset': 5000}
 
 
 def setup(rec):
     pass
 
 
-def strict_outcome(s, ctx, api, psopts=None):
+# numbering configurations of the walker (line numbering only: how the two column offsets combine on the first line is
+# read in two ways, which C20 handles; here both readings must agree)
+NUMBERINGS = [{}, {'line_number_offset': 0}, {'line_number_offset': 7}, {'line_number_offset': -1}]
+
+
+def strict_outcome(s, ctx, api, psopts=None, numbering=None):
     """('ok', nodes) / ('parse_error', exc) / ('foreign', exc)"""
     try:
-        lw = walker(s, ctx, tolerant=False, psopts=psopts)
+        lw = walker(s, ctx, tolerant=False, psopts=psopts, **(numbering or {}))
         if api == 'new':
             nl, _ = lw.parse_content(LatexGeneralNodesParser())
         elif api == 'legacy':
@@ -82,13 +87,13 @@ def strict_outcome(s, ctx, api, psopts=None):
         return 'foreign', e, None
 
 
-def check_error(s, e):
+def check_error(s, e, numbering=None):
     pos = getattr(e, 'pos', None)
     if not isinstance(pos, int) or isinstance(pos, bool):
         return 'parse error without integer position (pos=%r): %s' % (pos, getattr(e, 'msg', e))
     if not (0 <= pos <= len(s)):
         return 'parse error position %r outside the input (length %d): %s' % (pos, len(s), e.msg)
-    want = ref_lineno_colno(s, pos)
+    want = ref_lineno_colno(s, pos, **(numbering or {}))
     got = (getattr(e, 'lineno', None), getattr(e, 'colno', None))
     if got != want:
         return 'parse error at pos %d reports line/column %r, expected %r: %s' % (pos, got, want, e.msg)
@@ -106,8 +111,12 @@ def check_case(case, rec):
     psopts = case.get('psopts')
     if psopts:
         rec.monitor('parses_from_configured_state')
+    numbering = case.get('numbering')
+    if numbering is None and 'apis' not in case and not psopts:
+        numbering = NUMBERINGS[len(s) % len(NUMBERINGS)]
+    rec.hist('numbering', ','.join(sorted(numbering)) if numbering else 'default')
     for api in apis:
-        what, val, _ = strict_outcome(s, ctx, api, psopts)
+        what, val, _ = strict_outcome(s, ctx, api, psopts, numbering)
         rec.hist('outcome', what)
         if what == 'foreign':
             import traceback
@@ -124,9 +133,10 @@ def check_case(case, rec):
             if api == 'legacy':
                 rec.monitor('legacy_api_errors')
             rec.nontrivial(s)
-            err = check_error(s, val)
+            err = check_error(s, val, numbering)
             if err:
-                rec.violation(case, '%s (%s API) | input %r' % (err, api, s), mech='location')
+                rec.violation(dict(case, numbering=numbering), '%s (%s API, walker numbering %r) | input %r' % (
+                    err, api, numbering or {}, s), mech='location')
         elif must_raise:
             rec.violation(case, 'document with injected fault %r at %d was accepted in strict mode (%s API) | input %r'
                           % (case.get('fault'), case.get('at'), api, s), mech='accepted:' + str(case.get('fault')))
